@@ -53,6 +53,61 @@ class C09(fc.FlowCheck):
                     sc['hooks'] = {point: [[i + 1, p, f, b] for i, (p, f, b) in enumerate(combo)]}
                     yield sc
 
+    def extra(self):
+        """the application may switch the default error response off (`request.error_response = None`, which
+        handle_error supports): that must not change which hook points are visited, nor their order - the journal of
+        a failing request under that setting is compared with the journal under the default.  Oracle only (the model
+        keeps error_response set, as C01's hypothesis demands)."""
+        import cherrypy
+        from ..impl import wsgi
+        points = ['on_start_resource', 'before_request_body', 'before_handler', 'before_finalize', 'on_end_resource',
+                  'on_end_request', 'before_error_response', 'after_error_response']
+        out = []
+        journals = {}
+        for setting in ('default', 'none'):
+            journal = []
+
+            class Root:
+                @cherrypy.expose
+                def boom(self):
+                    raise ValueError('unexpected')
+
+                @cherrypy.expose
+                def fine(self):
+                    return b'ok'
+            conf = {'request.show_tracebacks': False}
+            for pt in points:
+                for tag, failsafe in (('a', False), ('b', True)):
+                    def cb(pt=pt, tag=tag):
+                        journal.append([pt, tag])
+                    cb.failsafe = failsafe
+                    conf['hooks.%s.%s' % (pt, tag)] = cb
+            if setting == 'none':
+                conf['request.error_response'] = None
+            app = wsgi.make_app(Root(), {'/': conf})
+            try:
+                for path in ('/boom', '/fine'):
+                    journal.append(['request', path])
+                    wsgi.call(app, 'GET', path)
+            finally:
+                import logging
+                try:
+                    cherrypy.engine.unsubscribe('graceful', app.log.reopen_files)
+                except Exception:
+                    pass
+                for lg in (app.log.error_log, app.log.access_log):
+                    logging.Logger.manager.loggerDict.pop(lg.name, None)
+            journals[setting] = journal
+        self.count('extra: hook journal with request.error_response = None')
+        if journals['none'] != journals['default']:
+            missing = [e for e in journals['default'] if e not in journals['none']]
+            out.append(core.Violation(
+                'hook-points:error_response-off',
+                'with request.error_response = None the hook journal of a failing request differs from the one under '
+                'the default error response; entries missing: %r' % (missing[:6],),
+                case={'k': 'error_response-none'}, observed=journals))
+        return out + list(super().extra() or [])
+
     def search_cases(self, around=None):
         for c in around or []:
             yield c
